@@ -125,6 +125,33 @@ pub fn programs(thorough: bool) -> Vec<Cmd> {
             ]));
         }
     }
+    // T6b: operand-less wait after a specific job has been waited for (hole in the job table)
+    for (i, a) in atoms.iter().enumerate() {
+        for (j, b) in atoms.iter().enumerate() {
+            if (i + 2 * j) % 3 != 0 && !thorough {
+                continue;
+            }
+            out.push(seq(vec![
+                Cmd::Async(bx(a.clone())),
+                Cmd::SaveBg(0),
+                Cmd::Async(bx(seq(vec![b.clone(), p(0)]))),
+                Cmd::WaitVar(0),
+                p(0),
+                Cmd::WaitAll,
+                p(0),
+            ]));
+        }
+    }
+    // T6c: three async jobs and an operand-less wait
+    for (a, b, c) in [(0usize, 1usize, 2usize), (3, 3, 3), (5, 0, 4), (2, 6, 1)] {
+        out.push(seq(vec![
+            Cmd::Async(bx(seq(vec![atoms[a].clone(), p(0)]))),
+            Cmd::Async(bx(seq(vec![atoms[b].clone(), p(0)]))),
+            Cmd::Async(bx(seq(vec![atoms[c].clone(), p(0)]))),
+            Cmd::WaitAll,
+            p(0),
+        ]));
+    }
     // T7: unknown pid
     out.push(seq(vec![Cmd::WaitUnknown, p(0)]));
     out.push(seq(vec![Cmd::Async(bx(Cmd::S(3))), Cmd::WaitUnknown, p(0), Cmd::WaitAll, p(0)]));
